@@ -88,7 +88,9 @@ def nest(snippets: list):
 
 def parse_value(value: str):
     global opt
-    return parse(value.strip(), opt)[0].value
+    parsed = parse(value.strip(), opt)
+    # An empty alternative (`a||b`, `a|`) is an empty value
+    return parsed[0].value if parsed else []
 
 
 def is_property(snippet):
